@@ -23,12 +23,29 @@
    Value tokens themselves are characterised for all strings in props/C16Css.v (inside the
    value, non-empty, ordered).
 
-   NOT proved (Level B): that scan(render sheet) is the event sequence of the tree, and that
-   split_value on a rendered value list returns exactly the generator's tokens.  Both are
-   covered by the correspondence run and by the ground-truth oracle of harness/c17_css.py. *)
+   Level B, on TEXT (proofs/CssSectionText.v, using C10 level B  scan (render sh) = events sh  of
+   proofs/CssRender.v): for every sheet sh of the grammar of model/CssSheet.v (nested rules,
+   `;`-terminated declarations, comments, strings, parentheses, pseudo selectors),
+   C17_css_section_text / C17_css_properties_text: get_css_section on the string `render sh` returns
+     section_items pos 0 (sh_items sh)   the innermost rule OF THE SHEET containing pos (children before
+                                         parents, bounds included) with (start, end, body start, body end)
+                                         computed from the lengths of the written parts, and the rule's
+                                         body as written;
+     props_spec body_text body_start (lay_items 0 body) None
+                                         its direct declarations laid out from the grammar: exact name and
+                                         value ranges, value tokens = split_value of the value text shifted
+                                         to the value, before = end of the previous sibling (body start for
+                                         the first), after = just behind the `;`.
+   C17_css_properties_ranges / C17_css_declarations_text: those name / value ranges are the layout's, and in the
+   body text they slice to the declaration names and values as written.
+   C17_select_css_text: select_item_css on the text = next_forest / prev_forest of the sheet's layout tree.
+   NOT proved: that split_value on a rendered value list returns exactly the generator's tokens
+   (value tokens are characterised for all strings in props/C16Css.v); declarations terminated by
+   the end of the body are outside the level-B grammar (covered at Level A by C17_css_properties and
+   by the correspondence run / ground-truth oracle of harness/c17_css.py). *)
 From Coq Require Import ZArith List.
 From Emmet Require Import lib.Base model.CssScan model.CssMatch model.CssParse model.CssActions
-     model.CssTree model.CssTreeActions proofs.CssActionsProofs.
+     model.CssTree model.CssTreeActions model.CssSheet proofs.CssActionsProofs proofs.CssRender proofs.CssSectionText.
 Import ListNotations.
 Local Open Scope Z_scope.
 
@@ -68,4 +85,72 @@ Example C17_css_nonvacuous :
     [mkCP (2, 3) (4, 5) [(4, 5)] 2 6; mkCP (6, 7) (8, 9) [(8, 9)] 6 9] /\
   scan (py_slice s 2 10) = body_events [Decl 0 1 1 2 3 3] (Some (4, 5, 5, 6, 7)) /\
   select_item_css s 2 false = Some (mkSI 2 6 [(2, 6); (4, 5)]).
+Proof. vm_compute. repeat split; reflexivity. Qed.
+
+(* ================================================================== on TEXT *)
+Theorem C17_css_section_text :
+  forall (sh : sheet) (pos : Z) (properties : bool),
+    wf_sheet sh = true ->
+    get_css_section (render sh) pos properties =
+    option_map (section_of_hit properties) (section_items pos 0 (sh_items sh)).
+Proof. exact css_section_text. Qed.
+Print Assumptions C17_css_section_text.
+
+(* properties requested: the direct declarations of the rule found, with exact offsets *)
+Theorem C17_css_properties_text :
+  forall (sh : sheet) (pos : Z),
+    wf_sheet sh = true ->
+    get_css_section (render sh) pos true =
+    match section_items pos 0 (sh_items sh) with
+    | None => None
+    | Some ((a, b, ba, bb), (body, g3)) =>
+        Some (mkCS a b ba bb (Some (props_spec (render_items body ++ render_gap g3) ba (lay_items 0 body) None)))
+    end.
+Proof. exact css_properties_text. Qed.
+Print Assumptions C17_css_properties_text.
+
+(* the rule found is the one the Level A spec names on the layout tree of the sheet *)
+Theorem C17_css_section_text_tree :
+  forall (sh : sheet) (pos : Z),
+    option_map fst (section_items pos 0 (sh_items sh)) = section_forest (tree sh) pos.
+Proof. exact section_items_tree. Qed.
+Print Assumptions C17_css_section_text_tree.
+
+(* select_item_css on the text: next / previous selector or declaration of the sheet's layout tree with its
+   full, value and value-token ranges *)
+Theorem C17_select_css_text :
+  forall (sh : sheet) (pos : Z) (is_prev : bool),
+    wf_sheet sh = true ->
+    select_item_css (render sh) pos is_prev =
+    if is_prev then prev_forest (render sh) (tree sh) pos else next_forest (render sh) (tree sh) pos.
+Proof. exact select_item_css_text. Qed.
+Print Assumptions C17_select_css_text.
+
+(* the name / value ranges of those properties are the ranges of the direct declarations of the body's layout,
+   shifted to the body start, and in the body text they slice to the names and values AS WRITTEN
+   (take pre = [], post = render_gap g3: the fragment get_css_section parses) *)
+Theorem C17_css_properties_ranges :
+  forall (frag : str) (from : Z) (l : list node),
+    map (fun cp => (cp_name cp, cp_value cp)) (props_spec frag from l None) = map (shift2 from) (decl_ranges l).
+Proof. exact props_spec_ranges. Qed.
+Print Assumptions C17_css_properties_ranges.
+
+Theorem C17_css_declarations_text :
+  forall (l : list item) (pre post : str),
+    map (slice2 (pre ++ render_items l ++ post)) (decl_ranges (lay_items (zlen pre) l)) = decl_texts l.
+Proof. exact decl_ranges_text. Qed.
+Print Assumptions C17_css_declarations_text.
+
+(* non-vacuity on text: the sheet  a{b:c;e{f:g;}h:i;}  of the grammar; at position 3 the outer rule with its two
+   direct declarations (the nested rule's declaration is skipped, `before` of h:i is the end of the nested rule),
+   at position 9 the nested rule *)
+Example C17_css_text_nonvacuous :
+  let decl n v := SDecl [] [LCh n] [] [] [LCh v] [] in
+  let rule n body := SRule [] (CssSheet.mkSel None [LCh n] []) [] body [] in
+  let sh := mkSheet [rule 97%N [decl 98%N 99%N; rule 101%N [decl 102%N 103%N]; decl 104%N 105%N]] [] in
+  wf_sheet sh = true /\
+  get_css_section (render sh) 3 true =
+    Some (mkCS 0 18 2 17 (Some [mkCP (2, 3) (4, 5) [(4, 5)] 2 6; mkCP (13, 14) (15, 16) [(15, 16)] 13 17])) /\
+  get_css_section (render sh) 9 true =
+    Some (mkCS 6 13 8 12 (Some [mkCP (8, 9) (10, 11) [(10, 11)] 8 12])).
 Proof. vm_compute. repeat split; reflexivity. Qed.
